@@ -1,0 +1,37 @@
+//go:build verif
+
+// SPDX-License-Identifier: Apache-2.0
+
+package sd
+
+import "sync/atomic"
+
+// VerifC14Counter reads the call counter of a round robin balancer (ok is false for any
+// other balancer, e.g. the single-host one).
+func VerifC14Counter(b Balancer) (uint64, bool) {
+	r, ok := b.(*roundRobinLB)
+	if !ok {
+		return 0, false
+	}
+	return atomic.LoadUint64(&r.counter), true
+}
+
+// VerifC14SetCounter sets the call counter of a round robin balancer (before it is used).
+func VerifC14SetCounter(b Balancer, c uint64) bool {
+	r, ok := b.(*roundRobinLB)
+	if !ok {
+		return false
+	}
+	atomic.StoreUint64(&r.counter, c)
+	return true
+}
+
+// VerifC14SetRand replaces the pseudorandom generator of a random balancer (before it is used).
+func VerifC14SetRand(b Balancer, f func(uint32) uint32) bool {
+	r, ok := b.(*randomLB)
+	if !ok {
+		return false
+	}
+	r.rand = f
+	return true
+}
